@@ -290,9 +290,9 @@ public:
     return o;
   }
   // value transform at the engine boundary
-  std::string wrapV(const std::string& v) const { return cfg.hostileValues ? std::string("\0", 1) + v + std::string("\0\xff", 2) : v; }
+  std::string wrapV(const std::string& v) const { return cfg.hostileValues && !v.empty() ? std::string("\0", 1) + v + std::string("\0\xff", 2) : v; }
   std::string unwrapV(const std::string& b) const {
-    if (!cfg.hostileValues) return b;
+    if (!cfg.hostileValues || b.empty()) return b;
     if (b.size() >= 3 && b[0] == '\0' && b[b.size() - 2] == '\0' && (unsigned char)b.back() == 0xff) return b.substr(1, b.size() - 3);
     return "<mangled:" + hexs(b) + ">";
   }
@@ -567,7 +567,7 @@ public:
     }
     std::string v = uv::isLeafKey(t.key) ? uv::leafValue(t.key, ext.s[t.key]) : uv::computeValue(d, t.key, vals, reads);
     if (!uv::isLeafKey(t.key) && d.validity == 2) { ext.o[t.key] = v; traceExt(); }
-    bool force = !uv::isLeafKey(t.key) && d.vk == 2;
+    bool force = !uv::isLeafKey(t.key) && (d.vk == 2 || d.vk == 3);
     t.completed = true;
     completedThisBuild.insert(t.key);
     completedValue[t.key] = v;
@@ -998,11 +998,14 @@ inline BuildObs Session::build(const Event& ev) {
   if (o.stalled) { obs = nullptr; return o; }
 
   bool engineCancelled = cfg.capi ? false : engine->isCancelled();
-  o.success = !value.empty() && !o.cycle && !engineCancelled;
+  // An empty result is also what a failed build returns; a build is successful
+  // when nothing cancelled it, no cycle and no error was reported (rules may
+  // legitimately produce empty values).
+  o.success = !o.cycle && !engineCancelled && !cancelIssued && o.errors.empty();
 
   // -- C05: cancellation oracles
   if (cancelIssued) {
-    if (!value.empty()) violate("success-after-cancel", "build returned a value although cancelBuild() was called on the engine thread before the loop's next cancellation test");
+    if (!value.empty() || !engineCancelled) violate("success-after-cancel", "build returned a value although cancelBuild() was called on the engine thread before the loop's next cancellation test");
     if (!pending.empty()) violate("returned-with-computing-tasks", "cancelled build returned while " + std::to_string(pending.size()) + " task(s) had not reported completion");
   }
   if (!pending.empty() && !cancelIssued) violate("returned-with-computing-tasks", "build returned while tasks were still computing");
